@@ -94,6 +94,14 @@ def load_module(it, dotted):
         m = external_module(it, dotted)
         mods[dotted] = m
         return m
+    # Python imports the parent packages (their __init__) before a submodule
+    parts = dotted.split('.')
+    for i in range(1, len(parts)):
+        parent = '.'.join(parts[:i])
+        if parent not in mods and relpath_of_module(parent):
+            load_module(it, parent)
+    if dotted in mods:
+        return mods[dotted]
     src, tree = read_source(rel)
     m = ModuleV(dotted)
     m.relpath = rel
